@@ -126,7 +126,7 @@ Lemma commit_evolves s nm key l r s' x : commit_active s nm key l r = (s', x) ->
 Proof.
   intros H. destruct x as [e|].
   - apply commit_err in H. subst. apply evolves_same; auto.
-  - apply commit_ok in H. destruct H as [_ [i [LK [_ [_ E]]]]]. subst. split; [simpl; lia|].
+  - apply commit_ok in H. destruct H as [_ [i [np [LK [_ [_ [_ [_ E]]]]]]]]. subst. split; [simpl; lia|].
     simpl. intros id _ [H|H].
     + apply in_ids. exists key, i. split; auto. apply lookup_in. exact LK.
     + eapply del_ids_sub; eauto.
